@@ -26,6 +26,10 @@ def install_monitor():
     D.DimArray._verif_monitored = True
 
 def ill_formed(x):
+    try: return _ill_formed(x)
+    except Exception as e: return 'the array cannot report its axes / labels: %s: %s' % (type(e).__name__, e)
+
+def _ill_formed(x):
     D = da()
     axes = x.axes; v = x.values
     if len(axes) != v.ndim: return 'an array with %d axes for %d dimensions' % (len(axes), v.ndim)
@@ -41,18 +45,25 @@ def ill_formed(x):
 # =============================================================== suite 0: programs
 class Programs:
     @staticmethod
-    def random_op(rng, a, stats):
+    def random_op(rng, a, stats, force=None):
         """an operation applicable to the array whose input JSON is a"""
         dims = a['dims']; nd = len(dims)
         fams = ['transpose', 'newaxis', 'query', 'query', 'dataset', 'scalar_op', 'setitem']
+        if nd and all(len(l) for l in a['labels']): fams += ['fork', 'fork']
         if nd: fams += ['swapaxes', 'get', 'get', 'reduce', 'cum', 'diff', 'sort_axis', 'reindex', 'take_axis', 'rename', 'set_label',
                         'set_dims', 'flatten', 'squeeze', 'fillna', 'dropna', 'binop', 'align']
-        f = rng.choice(fams)
-        stats['program_op'][f] += 1
+        f = force or rng.choice(fams)
+        if not force and nd >= 2 and any(len(l) == 0 for l in a['labels']) and rng.random() < 0.4: f = 'flatten'    # grouped axes without labels
+        if not force: stats['program_op'][f] += 1
         i = rng.randrange(nd) if nd else 0
         d = dims[i] if nd else None
         labs = a['labels'][i] if nd else []
         fresh = 'n%d' % rng.randrange(1000)
+        if f == 'fork':
+            how = rng.choice(['slice', 'slice1', 'labelslice', 'diff', 'cumsum', 'mul', 'take_list', 'reindex_same', 'dropna', 'sort_axis', 'copy'])
+            stats['fork_how'][how] += 1
+            j = rng.randrange(nd); l0 = a['labels'][j][0]
+            return ['fork_edit', how, j, (l0 + 1000) if isinstance(l0, (int, float)) and not isinstance(l0, bool) else 'zz']
         if f == 'transpose':
             p = list(range(nd)); rng.shuffle(p); return ['transpose', [dims[j] for j in p]] if nd else ['T']
         if f == 'newaxis': return ['newaxis', fresh, None, None, rng.randint(0, nd)]
@@ -76,14 +87,21 @@ class Programs:
             if a['axdtype'][i] != 'O' and labs: new = new[:-1] + [max(labs) + 7]
             return ['reindex', new, a['axdtype'][i], d, None, False, None, 'array']
         if f == 'take_axis': return ['take_axis', [rng.randrange(len(labs)) for _ in range(rng.randint(1, 3))], d, 'position'] if labs else ['query', 'repr']
-        if f == 'rename': return ['rename_axis', d if rng.random() < 0.5 else i, fresh]
+        if f == 'rename':
+            if nd > 1 and rng.random() < 0.1: return ['rename_axis', d if rng.random() < 0.5 else i, dims[(i + 1) % nd]]   # to a sibling's name
+            return ['rename_axis', d if rng.random() < 0.5 else i, fresh]
         if f == 'set_label':
             if not labs: return ['query', 'repr']
             j = rng.randrange(len(labs)); cur = labs[j]
             others = [x for k_, x in enumerate(labs) if k_ != j]
             new = (cur + 1000) if not isinstance(cur, str) else cur + 'z'
             return ['set_label', d, j, new]
-        if f == 'set_dims': return ['set_dims', ['m%d%d' % (rng.randrange(100), k_) for k_ in range(nd)]]
+        if f == 'set_dims':
+            u = rng.random()
+            if u < 0.4: return ['set_dims', ['m%d%d' % (rng.randrange(100), k_) for k_ in range(nd)]]
+            if u < 0.7: nm = list(dims); rng.shuffle(nm); return ['set_dims', nm]              # a permutation of the current names
+            if u < 0.85: return ['set_dims', list(dims[1:]) + [fresh]]                          # a shift
+            return ['set_dims', [dims[0]] * nd]                                                 # duplicates (rejected when nd > 1)
         if f == 'flatten':
             k_ = rng.randint(1, nd); return ['flatten', rng.sample(dims, k_), 'tuple', None]
         if f == 'squeeze': return ['squeeze', None]
@@ -99,7 +117,7 @@ class Programs:
         cases = []
         maxlen = 8 if tier == 'quick' else 25
         while len(cases) < n:
-            a0 = rand_array(rng, stats=stats, dtype=rng.choice(['f', 'f', 'i']), maxdim=3, minlen=1, maxlen=3, attrs=rng.random() < 0.3,
+            a0 = rand_array(rng, stats=stats, dtype=rng.choice(['f', 'f', 'i']), maxdim=3, minlen=0 if rng.random() < 0.12 else 1, maxlen=3, attrs=rng.random() < 0.3,
                             nan_p=0.1, kinds=('i', 'f', 'O'))
             prog = []
             cur = mk_array(a0)
@@ -107,12 +125,13 @@ class Programs:
             for _ in range(rng.randint(1, maxlen)):
                 try:
                     aj = in_json(cur)
-                except Unsupported:
+                except Exception:       # Unsupported values, or an array that cannot be observed (execute() reports that)
                     break
                 if any('members' in axis_json(ax) for ax in cur.axes) or cur.dtype.kind not in 'fi':
                     o = rng.choice([['unflatten'], ['query', 'labels'], ['query', 'repr']])
                 else:
-                    o = Programs.random_op(rng, aj, stats)
+                    try: o = Programs.random_op(rng, aj, stats)
+                    except (TypeError, ValueError, IndexError): o = ['query', 'repr']     # labels the op builder has no recipe for (None, NaN)
                 try:
                     with warnings.catch_warnings():
                         warnings.simplefilter('ignore')
@@ -122,6 +141,15 @@ class Programs:
                     continue       # an inapplicable operation: not part of the program
                 if not isinstance(nxt, D.DimArray): continue    # keep only steps that yield an array
                 prog.append(o); cur = nxt
+            # a second live object edited at the very end: the original's caches are what the probes then see
+            try: fork_ok = cur.ndim and all(ax.size for ax in cur.axes) and cur.dtype.kind in 'fi' and not any('members' in axis_json(ax) for ax in cur.axes)
+            except Exception: fork_ok = False
+            if rng.random() < 0.25 and fork_ok:
+                try:
+                    stats['program_op']['fork'] += 1
+                    o = Programs.random_op(rng, in_json(cur), stats, force='fork')
+                    cur = ops.RUN[o[0]](cur, [cur], *o[1:]); prog.append(o)
+                except Exception: pass
             if not prog: continue
             stats['program_length'][len(prog)] += 1
             cases.append({'ins': [a0], 'ops': prog})
@@ -132,29 +160,37 @@ class Programs:
         install_monitor()
         D = da()
         a = mk_array(c['ins'][0])
+        c['_stale'] = None; c['_step_ill'] = None
         _MON['bad'] = []; _MON['on'] = True
+        state = {}
+        def go():
+            cur = a
+            for k, o in enumerate(c['ops']):
+                cur = ops.RUN[o[0]](cur, [a], *o[1:])
+                if isinstance(cur, D.DimArray) and c['_step_ill'] is None:
+                    msg = ill_formed(cur)
+                    if msg: c['_step_ill'] = 'after step %d (%s): %s' % (k, o[0], msg)
+            state['final'] = cur
+            return cur
         try:
-            res = run_impl(lambda: ops.run_ops([a], c['ops']))
-            # history independence: the final object vs a freshly constructed equal array under probes
-            c['_stale'] = None
-            if res[0] == 'val':
-                cur = a
-                try:
-                    with warnings.catch_warnings():
-                        warnings.simplefilter('ignore')
-                        with np.errstate(all='ignore'):
-                            final = ops.run_ops([mk_array(c['ins'][0])], c['ops'])
-                            if isinstance(final, D.DimArray) and not any(isinstance(ax, D.core.axes.MultiAxis) for ax in final.axes):
-                                fresh = D.DimArray(final.values.copy(), axes=[D.Axis(ax.values.copy(), ax.name, **ax.attrs) for ax in final.axes], **final.attrs)
-                                c['_stale'] = probe_difference(final, fresh)
-                except Unsupported: pass
+            res = run_impl(go)
         finally:
             _MON['on'] = False
         c['_illformed'] = list(_MON['bad'][:3])
+        # history independence: the final object vs a freshly constructed equal array under probes
+        final = state.get('final')
+        if res[0] == 'val' and isinstance(final, D.DimArray) and not ill_formed(final) \
+                and not any(isinstance(ax, D.core.axes.MultiAxis) for ax in final.axes):
+            with warnings.catch_warnings():
+                warnings.simplefilter('ignore')
+                with np.errstate(all='ignore'):
+                    fresh = D.DimArray(final.values.copy(), axes=[D.Axis(ax.values.copy(), ax.name, **ax.attrs) for ax in final.axes], **final.attrs)
+                    c['_stale'] = probe_difference(final, fresh)
         return res
 
     @staticmethod
     def oracle(c, res):
+        if c.get('_step_ill'): return c['_step_ill']
         if c.get('_illformed'): return 'the library constructed an ill-formed array while running the program: %s' % c['_illformed'][0]
         if c.get('_stale'): return 'after the history the array answers %s differently from a freshly constructed equal array' % c['_stale']
         if res[0] == 'val' and res[1]['t'] == 'arr':
@@ -179,7 +215,13 @@ def probe_difference(x, y):
         if labs:
             probes += [('take first label', lambda z: z.take({d: labs[0]})), ('slice', lambda z: z[labs[0]:labs[-1]] if z.axes[0].is_monotonic() and z.axes[0].dtype.kind != 'O' else 0),
                        ('reindex', lambda z: z.reindex_axis(labs[::-1], axis=d)), ('align', lambda z: da().align([z, z.take({d: labs[:1]})])[0])]
-    probes += [('mul', lambda z: z * 2), ('repr', lambda z: repr(z))]
+    probes += [('mul', lambda z: z * 2), ('repr', lambda z: repr(z)),
+               ('is_monotonic', lambda z: [bool(ax.is_monotonic()) for ax in z.axes])]
+    for k_, ax in enumerate(x.axes):
+        if ax.size and ax.values.dtype.kind in 'if':
+            lo, hi = float(np.min(ax.values)), float(np.max(ax.values)); nm = ax.name
+            probes += [('label slice along %s' % nm, lambda z, nm=nm, lo=lo, hi=hi: z.take({nm: slice(lo, hi)})),
+                       ('inner label slice along %s' % nm, lambda z, nm=nm, lo=lo, hi=hi: z.take({nm: slice(lo + 0.25, hi - 0.25)}))]
     for name, f in probes:
         try:
             with warnings.catch_warnings():
@@ -204,6 +246,31 @@ def _canon(r):
     if isinstance(r, D.DimArray): return json.dumps(arr_json(r), sort_keys=True, default=str)
     if isinstance(r, tuple): return repr([np.asarray(t).tolist() for t in r])
     return repr(r)
+
+# a second live object: derive r from the array by a non-in-place operation, fill the caches of both, edit a label of r in
+# place, and carry on with the ORIGINAL array: it must keep answering like a fresh array with its current labels
+@ops.op('fork_edit')
+class _:
+    def run(a, ins, how, j, newlab):
+        for ax in a.axes: ax.is_monotonic()
+        if how == 'slice': r = a.ix[tuple([slice(0, None)] * a.ndim)] if a.ndim else a
+        elif how == 'slice1': r = a.ix[1:] if a.ndim else a
+        elif how == 'labelslice':
+            ax = a.axes[0]; r = a[ax.values[0]:ax.values[-1]] if ax.is_monotonic() and ax.values.dtype.kind != 'O' and ax.size else a.ix[0:]
+        elif how == 'diff': r = a.diff(axis=a.dims[0]) if a.axes[0].size > 1 else a.ix[0:]
+        elif how == 'cumsum': r = a.cumsum(axis=0)
+        elif how == 'mul': r = a * 2
+        elif how == 'take_list': r = a.take_axis(list(range(a.axes[0].size)), axis=0, indexing='position')
+        elif how == 'reindex_same': r = a.reindex_axis(a.axes[0].values, axis=0)
+        elif how == 'dropna': r = a.dropna(axis=0)
+        elif how == 'sort_axis': r = a.sort_axis(axis=0)
+        elif how == 'copy': r = a.copy()
+        else: raise ValueError(how)
+        for ax in r.axes: ax.is_monotonic()
+        if r.ndim and r.axes[j % r.ndim].size and not any(r.axes[j % r.ndim] is ax for ax in a.axes):
+            r.axes[j % r.ndim][0] = newlab
+        return a
+    def coq(how, j, newlab): raise Unsupported('two live objects: decided by the probes against a fresh array')
 
 # self-referential ops used in programs
 @ops.op('binop_self')
@@ -337,11 +404,127 @@ class Ctor:
     @staticmethod
     def nontrivial(c, res): return res[0] == 'val'
 
+# =============================================================== suite 2: the monotonicity cache of an Axis object
+class AxisCache:
+    HEADER = ('From DA Require Import Prelude NDArray Array PyRT.\nFrom DA.Model Require Import Value Reshape Indexing Align Cache.\nOpen Scope string_scope.\n')
+    RUNNER = 'ccase_run'
+    SHOW = 'ccase_trace'
+
+    @staticmethod
+    def generate(rng, n, tier, stats):
+        cases = []
+        maxlen = 8 if tier == 'quick' else 30
+        while len(cases) < n:
+            kind = rng.choice(['i', 'i', 'f', 'O'])
+            m = rng.randint(0, 5)
+            order = rng.choice(['inc', 'dec', 'shuf', 'dup'])
+            if kind == 'O': labs = rng.sample(list('abcdefgh'), m)
+            else: labs = rng.sample(range(-5, 12), m)
+            if order == 'inc': labs.sort()
+            elif order == 'dec': labs.sort(reverse=True)
+            elif order == 'dup' and m >= 2: labs[rng.randrange(m)] = labs[rng.randrange(m)]
+            if kind == 'f': labs = [x + 0.5 for x in labs]
+            stats['axis_order'][order] += 1
+            prog = []; cur = len(labs)
+            for _ in range(rng.randint(1, maxlen)):
+                f = rng.choice(['query', 'query', 'setitem', 'setvalues', 'sort', 'slice', 'reverse', 'take', 'copy'])
+                stats['cache_op'][f] += 1
+                if f == 'query': prog.append(['query'])
+                elif f == 'setitem':
+                    i = rng.randint(-cur - 1, cur); v = rng.choice([rng.randint(-5, 12), rng.randint(-5, 12) + 0.5] if kind != 'O' else ['q', 'a', 'z'])    # no mixed str/number axes: their comparison raises
+                    if kind == 'i' and rng.random() < 0.6: v = rng.randint(-5, 12)
+                    prog.append(['setitem', i, v])
+                    if isinstance(v, str): kind = 'O'
+                    elif isinstance(v, float) and kind == 'i': kind = 'f'
+                elif f == 'setvalues':
+                    k2 = rng.choice(['i', 'f', 'O']); sz = cur if rng.random() < 0.85 else cur + 1
+                    new = rng.sample(list('abcdefgh'), min(sz, 8)) if k2 == 'O' else sorted(rng.sample(range(-5, 12), sz), reverse=rng.random() < 0.3)
+                    if k2 == 'f': new = [x + 0.25 for x in new]
+                    if rng.random() < 0.4: rng.shuffle(new)
+                    prog.append(['setvalues', k2, new])
+                    if len(new) == cur: kind = k2
+                elif f == 'sort':
+                    if kind == 'O' : prog.append(['query'])      # sorting mixed objects may raise: not the subject
+                    else: prog.append(['sort'])
+                elif f == 'slice':
+                    a_ = rng.randint(0, cur); b_ = rng.randint(a_, cur); prog.append(['slice', a_, b_]); cur = b_ - a_
+                elif f == 'reverse': prog.append(['reverse'])
+                elif f == 'take':
+                    if cur == 0: prog.append(['query']); continue
+                    idx = [rng.randint(-cur, cur - 1) for _ in range(rng.randint(1, 4))]
+                    if rng.random() < 0.1: idx.append(cur + 2)
+                    else: cur = len(idx)
+                    prog.append(['take', idx])
+                else: prog.append(['copy'])
+            cases.append({'labels': labs, 'kind': 'O' if labs and isinstance(labs[0], str) else ('f' if labs and isinstance(labs[0], float) else ('i' if labs else 'f')), 'prog': prog})
+        return cases
+
+    @staticmethod
+    def execute(c):
+        D = da()
+        ax = D.Axis(ops.labs_np(c['labels'], c['kind']) if c['labels'] else np.array([], dtype=float), 'x')
+        c['kind0'] = kind_of(ax.values)
+        trace = []
+        from dimarray.core.indexing import is_monotonic
+        c['_bad'] = None
+        for k, o in enumerate(c['prog']):
+            out = None
+            try:
+                if o[0] == 'query': out = bool(ax.is_monotonic())
+                elif o[0] == 'setitem': ax[o[1]] = o[2]
+                elif o[0] == 'setvalues': ax.values = ops.labs_np(o[2], o[1]) if o[2] else np.array([], dtype={'i': np.int64, 'f': float, 'O': object}[o[1]])
+                elif o[0] == 'sort': ax.sort()
+                elif o[0] == 'slice': ax = ax[o[1]:o[2]]
+                elif o[0] == 'reverse': ax = ax[::-1]
+                elif o[0] == 'take': ax = ax.take(o[1])
+                elif o[0] == 'copy': ax = ax.copy()
+            except Exception as e:
+                out = {'err': type(e).__name__}
+            m = ax._monotonic
+            truth = bool(is_monotonic(ax.values))
+            if m is not None and bool(m) != truth and c['_bad'] is None:
+                c['_bad'] = 'after step %d (%s) the Axis caches is_monotonic() = %r while its labels %r give %r' % (k, o[0], bool(m), ax.values.tolist(), truth)
+            if isinstance(out, bool) and out != truth and c['_bad'] is None:
+                c['_bad'] = 'step %d: is_monotonic() answered %r; a fresh Axis with the same labels %r answers %r' % (k, out, ax.values.tolist(), truth)
+            trace.append({'labels': [lab_json(x) for x in ax.values], 'kind': kind_of(ax.values), 'cache': None if m is None else bool(m), 'out': out})
+        return ('val', {'t': 'trace', 'v': trace})
+
+    @staticmethod
+    def coq_case(c, res):
+        def cop(o):
+            if o[0] == 'query': return 'CQuery'
+            if o[0] == 'setitem':
+                v = o[2]; k = 'O' if isinstance(v, str) else 'f' if isinstance(v, float) else 'i'
+                return '(CSetItem %s %s %s)' % (cq_z(o[1]), cq_label(v), cq_kind({'O': 'U'}.get(k, k)))
+            if o[0] == 'setvalues': return '(CSetValues %s %s)' % (cq_kind(o[1]), ops.cq_labs(o[2]))
+            if o[0] == 'sort': return 'CSort'
+            if o[0] == 'slice': return '(CSlice %d %d)' % (o[1], o[2])
+            if o[0] == 'reverse': return 'CReverse'
+            if o[0] == 'take': return '(CTake %s)' % cq_list([cq_z(z) for z in o[1]])
+            return 'CCopy'
+        def cout(x):
+            if x is None: return 'ONone'
+            if isinstance(x, bool): return '(OBool %s)' % ('true' if x else 'false')
+            return '(OErr %s)' % (x['err'] if x['err'] in ('IndexError', 'ValueError', 'TypeError', 'KeyError') else 'OtherError')
+        steps = []
+        for o, t in zip(c['prog'], res[1]['v']):
+            m = 'None' if t['cache'] is None else '(Some %s)' % ('true' if t['cache'] else 'false')
+            steps.append('(%s, (%s, %s, %s, %s))' % (cop(o), ops.cq_labs(t['labels']), cq_kind(t['kind']), m, cout(t['out'])))
+        return '(%s, %s, %s)' % (ops.cq_labs(c['labels']), cq_kind(c['kind0']), cq_list(steps))
+
+    @staticmethod
+    def oracle(c, res): return c.get('_bad')
+
+    @staticmethod
+    def nontrivial(c, res): return sum(1 for o in c['prog'] if o[0] == 'query') >= 1 and len(c['prog']) >= 3
+
 import random
-SUITES = [Programs, Ctor]
+SUITES = [Programs, Ctor, AxisCache]
 RULE = ('suite 0: random programs (length 1-8 quick, 1-25 thorough) over indexing, assignment, arithmetic, reductions, reshaping, reindexing, '
         'aligning, renaming / relabelling in place, Dataset insertion+extraction, interleaved with cache-filling queries; every DimArray '
         'constructed by the library while the program runs is tested for well-formedness (monitor on DimArray.__init__); the final array '
         'is compared with the model and with a freshly constructed equal array under a probe set of further operations; '
-        'suite 1: all documented constructor forms and the malformed inputs')
+        'suite 1: all documented constructor forms and the malformed inputs; suite 2: histories of queries, label edits, sorts, slices, '
+        'reversals, takes and copies on one Axis object, its labels, dtype kind and private _monotonic cache compared with the state machine '
+        'of Model/Cache.v after every step, and the cache invariant tested on the real object')
 def generate(rng, n, tier, stats): raise NotImplementedError
